@@ -138,6 +138,11 @@ EapOthers ==
   \cup { [code |-> c, id |-> 7, m |-> mm, data |-> D(n, 71)] : c \in {1, 2}, mm \in EapSimple, n \in {1, 2, 255} }
   \cup { [code |-> 2, id |-> 8, m |-> "expanded", vid |-> vid, vtype |-> vt, data |-> D(n, 73)] :
            vid \in {0, 1, 10415, 16777215}, vt \in { << 0, 0, 0, 3 >>, << 255, 255, 255, 255 >> }, n \in {0, 2, 100} }
+  \* Expanded types whose vendor id / vendor type COINCIDE with codes the codec knows for other purposes: vendor 0 (IETF) with the
+  \* one-octet type codes 1..6, 13, 23, 50, 254, 255 as vendor type, the same under the 3GPP vendor id, vendor types 1..3 under vendor 1;
+  \* with data that looks like an EAP-AKA' body, and with none -- an Expanded packet stays an Expanded packet
+  \cup { [code |-> 1 + (vt % 2), id |-> vt % 256, m |-> "expanded", vid |-> vid, vtype |-> << 0, 0, vt \div 256, vt % 256 >>, data |-> dt] :
+           vid \in {0, 1, 10415}, vt \in {0, 1, 2, 3, 4, 5, 6, 13, 18, 23, 50, 254, 255, 256, 306}, dt \in { << >>, << 1, 0, 0, 24, 1, 0, 1 >>, D(9, 77) } }
   \cup { Eap5GStart(3), Eap5GNas(4, D(1, 75)), Eap5GNas(5, D(300, 76)) }
 EAPs == { [k |-> "EAP", eap |-> e] : e \in EapAkas \cup EapOthers }
 
